@@ -21,7 +21,7 @@ impl FarmSim {
         reward: u8,
         amount: u64,
         start: Option<u8>,
-        len: Option<u8>,
+        len: Option<u16>,
         id: Option<u8>,
         funds_v: &Funds,
         st: &mut Stats,
